@@ -5,6 +5,7 @@ import json, sys
 
 pid = sys.argv[1]
 wt = sys.argv[2] if len(sys.argv) > 2 else f'/tmp/wt/{pid}'
+first = int(sys.argv[3]) if len(sys.argv) > 3 else 1
 p = [json.loads(l) for l in open('/verif/properties.jsonl') if json.loads(l)['id'] == pid][0]
 print(f"""You are helping to evaluate a test suite for the Rust D-Bus library zbus (crates zvariant, zvariant_derive, zbus, zbus_names, zbus_macros, zbus_xml ...). You get your own scratch git worktree of the repository at {wt} (detached HEAD). Work ONLY inside {wt} and {wt}-out; never touch /repo or /verif and do not read /verif.
 
@@ -23,7 +24,7 @@ Your task: produce TWO different, independent changes ("mutants") to the library
   4. needs something SPECIFIC to manifest: a particular input shape or size, a particular interleaving, a fault at a particular point, a multi-step sequence of operations, or an unusual-but-legal input. Not something any ordinary use of the library would trip over at once, and not a deliberately obfuscated backdoor keyed on a magic constant.
 The two mutants should differ in mechanism and location (not two variations of one edit).
 
-For each mutant k in {{1, 2}} write into the directory {wt}-out/m<k>/ :
+For each mutant k in {{{first}, {first + 1}}} write into the directory {wt}-out/m<k>/ :
   * patch.diff — `git diff` of the library change only (it must apply with `git apply` to a clean checkout of the worktree's HEAD),
   * a demonstration: a small Rust test file or program (e.g. demo.rs meant to be dropped into the crate's tests/ directory, or a tiny cargo project with a path dependency) that FAILS with the change and PASSES without it, plus the exact commands to run it in a file RUN.md,
   * notes.md — which property clause it breaks, what it needs in order to manifest, and the before/after test results you observed.
